@@ -121,9 +121,14 @@ def t1(repo, res, canon, pc, logic):
                 ok, why = False, ('a scheduler step queues %s but spawns allocation for %s: a workflow is allocated '
                                   'twice or never' % (apps, spawns))
             else:
-                must = path_must(logic, p)
-                if Lit('%s in %s' % (apps[0], QUEUE), False) not in must:
+                must = path_must(logic, p, depth=0)
+                if Lit('%s in %s' % (apps[0], QUEUE), False) not in must and Lit('%s in %s' % (apps[0], QUEUE), False) \
+                        not in path_must(logic, p):
                     ok, why = False, 'an observation is queued without testing that it is not already queued'
+                elif not any(l.pol and 'has_observations_ready_for_processing(' in l.atom for l in must):
+                    ok, why = False, ('an observation is taken over from the buffer on a path that has not established '
+                                      'has_observations_ready_for_processing(): nothing (None) or an observation the buffer '
+                                      'wants to hold back is queued')
     (res.ok if ok and n else res.bad)('C04.T1', s, None, 'queue.append(obs) and spawn allocate_tasks(obs) occur together, for a new obs',
                                       'ok' if ok and n else why or 'the scheduler never starts allocation')
 
@@ -581,6 +586,34 @@ def t4(repo, res, canon):
             why = 'the loop condition is `%s`, not `not self.is_finished()`' % short(ast.unparse(t))
     (res.ok if ok else res.bad)('C04.T4', f, loops[0] if loops else None,
                                 'start() returns from the open-ended run only when is_finished()', 'ok' if ok else why)
+    # ... and the open-ended call (runtime <= 0) is the one that takes that loop
+    if ok and len(f.params) > 1:
+        logic = Logic(canon)
+        rt = f.params[1]
+        okp, n_open = True, 0
+        for p in cached_paths(f):
+            if p.exit == 'raise':
+                continue
+            must = path_must(logic, p, depth=0)
+            bounded = Lit('%s <= 0' % rt, False) in must
+            if bounded:
+                continue
+            n_open += 1
+            fin = None
+            for e in p.events:
+                if e.kind == 'test':
+                    tn, tp = e.node, e.pol
+                    while isinstance(tn, ast.UnaryOp) and isinstance(tn.op, ast.Not):
+                        tn, tp = tn.operand, not tp
+                    if isinstance(tn, ast.Call) and call_name(tn) == 'is_finished':
+                        fin = tp
+            if fin is not True:
+                okp = False
+        (res.ok if okp and n_open else res.bad)(
+            'C04.T4', f, None, 'every return of the open-ended call (runtime <= 0) has seen is_finished()',
+            '%d open-ended path(s)' % n_open if okp and n_open else
+            'start() can return from an open-ended call (runtime <= 0) without having seen is_finished(): the run is cut short '
+            '(or env.run is given a non-positive bound and raises)')
 
 
 def t10(repo, res, logic):
